@@ -34,15 +34,50 @@
 (*                        tracker/progress.go MaybeUpdate, MaybeDecrTo,    *)
 (*                        BecomeProbe/Replicate, IsPaused;                 *)
 (*                        quorum/majority.go CommittedIndex, VoteResult    *)
+(*   ProposeConfChange   rawnode.go ProposeConfChange 93-99 -> raft.go     *)
+(*                        stepLeader MsgProp 1044-1080 (pendingConfIndex / *)
+(*                        alreadyPending refusal: the entry is replaced by *)
+(*                        an empty normal one), becomeLeader 758-763,      *)
+(*                        reset 633                                        *)
+(*   applying a conf     raftsim ready() -> rawnode.go ApplyConfChange     *)
+(*   change               104-107 -> raft.go applyConfChange 1637-1657,    *)
+(*                        switchToConfig 1665-1718 (a leader that removed  *)
+(*                        itself stays leader, without Progress;           *)
+(*                        maybeCommit / bcastAppend or probes under the    *)
+(*                        new configuration); confchange/confchange.go     *)
+(*                        Simple 132-149, apply 154-178, makeVoter         *)
+(*                        182-193, remove 235-248, initProgress 251-277;   *)
+(*                        tracker/tracker.go Committed 177-179, TallyVotes *)
+(*                        267-288; quorum/majority.go CommittedIndex,      *)
+(*                        VoteResult over the node's OWN configuration;    *)
+(*                        promotable 1632-1635 (hup 784-787); the refusal  *)
+(*                        of responses from unknown peers rawnode.go Step  *)
+(*                        110-119; stepLeader 1109-1113                    *)
 (*   Ready cycle         rawnode.go Ready/Advance, raft.go advance         *)
 (*                        546-597, node.go MustSync 592-599                *)
 (*   Crash / Restart     the harness' disk (synced vs unsynced HardState), *)
-(*                        raft.go newRaft 318-370, loadState 1719-1726     *)
+(*                        raft.go newRaft 318-370 (configuration restored  *)
+(*                        from Storage.InitialState 323, 346-353: the      *)
+(*                        genesis one in raftsim, then every committed     *)
+(*                        conf change is applied again), loadState         *)
+(*                        1719-1726                                        *)
 (*                                                                         *)
-(* Scope: fixed voter set Server (no membership change, no snapshots, no   *)
-(* CheckQuorum / ReadIndex / leader transfer in THIS module; those are     *)
+(* Scope: no snapshots, no CheckQuorum / ReadIndex / leader transfer, no   *)
+(* joint configurations, learners or auto-leave in THIS module; those are  *)
 (* exercised on the real code by raftsim's random scheduler and judged by  *)
-(* RaftObs.tla).  PreVote (Config.PreVote, with CheckQuorum off, i.e. no   *)
+(* RaftObs.tla.  SIMPLE membership changes ARE modelled (CONSTANT          *)
+(* ConfChange = TRUE; FALSE = the voter set is Server for ever, exactly    *)
+(* the module without them): one voter added or removed per change         *)
+(* (raftpb.ConfChange, or a ConfChangeV2 with one change and the automatic *)
+(* transition), proposed on a leader (ProposeConfChange), kept in the log  *)
+(* as an entry of its own kind (field c), and applied by every node when   *)
+(* the entry is committed - inside the Ready cycle of the action that      *)
+(* commits it, as raftsim does.  Every node has its own current            *)
+(* configuration cfg[i]; it counts votes and acknowledgements over THAT    *)
+(* set, sends to THAT set, and does not campaign when it is not in it.     *)
+(* The instances MC_Raft3_conf*.cfg check it (three nodes, InitVoters of   *)
+(* them voters at the start), raftsim replays / trace-validates it.        *)
+(* PreVote (Config.PreVote, with CheckQuorum off, i.e. no   *)
 (* leader lease) IS modelled: CONSTANT PreVote = TRUE gives the two-phase  *)
 (* election (role "P" = StatePreCandidate, messages "PreVote" and          *)
 (* "PreVoteResp"), PreVote = FALSE the plain one; the instances            *)
